@@ -35,8 +35,9 @@ CHECK = {
                    "(hooked identity log of PartiallyEvaluated::verify, squeezed challenges, "
                    "Accumulator::from_dual_msm(prepare(..))), and the Lean off-circuit pipeline out of the C01/C02/C14 "
                    "models gives the same values (off=1); on generated inner circuits with/without lookups, trash "
-                   "arguments, 0-2 committed and 0-2 plain instance columns, several k, through the light and the "
-                   "foreign-curve back-end; (c) MockProver accepts instance = encode(vk, public inputs, off-circuit "
+                   "arguments, 0-2 committed and 0-2 plain instance columns (including no instance column at all and a "
+                   "plain instance column without values: regression cases of a repaired panic), several k, through the "
+                   "light and the foreign-curve back-end; (c) MockProver accepts instance = encode(vk, public inputs, off-circuit "
                    "accumulator) and rejects altered ones; every advice cell of the light verifier circuit sampled by "
                    "the tamper sweep is constrained. LightAggregator: 1, 2, 3 inner proofs, every section of the "
                    "aggregated proof and every IPA element corrupted, inner public inputs altered",
@@ -66,8 +67,9 @@ CHECK = {
                   "element / claim at fixed challenges, the un-folding of one round with the explicit extracted opening "
                   "(three accepted continuations), schedule equality, the accumulator algebra, "
                   "in_circuit_ids_eq_off_circuit (identity level: instance evaluations, Lagrange values, x^n, every "
-                  "identity value, expected_h_eval; wherever the gadget does not panic — it does for an inner circuit "
-                  "without instance queries, known finding) and in_circuit_final_msm_eq_off_circuit (accumulator "
+                  "identity value, expected_h_eval; wherever the gadget does not panic — the instance block never does, "
+                  "gadget_instance_evals_total, after the repair 17a2375 for inner circuits without instance queries or "
+                  "with an empty plain instance column) and in_circuit_final_msm_eq_off_circuit (accumulator "
                   "level, given the same power vectors and v) with the operation-by-operation equalities of the scalar "
                   "side. Not mechanised, compared on every run only (gadget-verify lines, off=1): that "
                   "evaluate_interpolated_polynomial equals eval_polynomial of lagrange_interpolate; the assembly of the multi-opening pieces along "
